@@ -107,8 +107,10 @@ glamfit_complex(const struct ndsparse* data, const double* weights, const double
 		R.ranges[i] = F.ranges[i] = data->ranges[i];
 	}
 
+	/* (an entry with zero weight has no influence whatever it holds, be it
+	 * an infinity or NaN marking a missing value) */
 	for (i = 0; i < data->rows; i++)
-		R.x[i] *= data->x[i];
+		R.x[i] = (weights[i] == 0) ? 0 : R.x[i]*data->x[i];
 
 	/*
 	 * Convolve F and R with the basis matrices
